@@ -6,21 +6,26 @@
 #include <string.h>
 #include <stdarg.h>
 #include <locale.h>
+#include <errno.h>
 #include "xraylib.h"
 #include "xraylib-error-private.h"
+/* fault injection (C04 stage 4, C14, C18): when W_fail_at > 0 the W_fail_at-th allocation request made by library code from now on returns NULL
+ * with errno = ENOMEM (once); 0 = off.  W_reqs counts requests, W_failed the injected failures.  Single-threaded stages only. */
+long W_fail_at = 0, W_reqs = 0, W_failed = 0;
+#define FAULT() (__atomic_add_fetch(&W_reqs, 1, __ATOMIC_RELAXED), W_fail_at > 0 && --W_fail_at == 0 ? (W_failed++, errno = ENOMEM, 1) : 0)
 long W_live = 0, W_allocs = 0, W_files = 0, W_fopens = 0, W_setlocale = 0, W_over = 0, W_sets = 0, W_sets_null = 0;
 void *__real_malloc(size_t); void __real_free(void *); void *__real_realloc(void *, size_t); void *__real_calloc(size_t, size_t);
 char *__real_strdup(const char *); char *__real_strndup(const char *, size_t); FILE *__real_fopen(const char *, const char *); int __real_fclose(FILE *);
 char *__real_setlocale(int, const char *); int __real_vasprintf(char **, const char *, va_list);
 void __real_xrl_set_error_literal(xrl_error **, xrl_error_code, const char *);
 void __real_xrl_propagate_error(xrl_error **, xrl_error *);
-void *__wrap_malloc(size_t n) { void *p = __real_malloc(n); if (p) { __atomic_add_fetch(&W_live, 1, __ATOMIC_RELAXED); __atomic_add_fetch(&W_allocs, 1, __ATOMIC_RELAXED); } return p; }
-void *__wrap_calloc(size_t a, size_t b) { void *p = __real_calloc(a, b); if (p) { __atomic_add_fetch(&W_live, 1, __ATOMIC_RELAXED); __atomic_add_fetch(&W_allocs, 1, __ATOMIC_RELAXED); } return p; }
-void *__wrap_realloc(void *o, size_t n) { void *p = __real_realloc(o, n); if (!o && p) { __atomic_add_fetch(&W_live, 1, __ATOMIC_RELAXED); __atomic_add_fetch(&W_allocs, 1, __ATOMIC_RELAXED); } return p; }
+void *__wrap_malloc(size_t n) { if (FAULT()) return NULL; void *p = __real_malloc(n); if (p) { __atomic_add_fetch(&W_live, 1, __ATOMIC_RELAXED); __atomic_add_fetch(&W_allocs, 1, __ATOMIC_RELAXED); } return p; }
+void *__wrap_calloc(size_t a, size_t b) { if (FAULT()) return NULL; void *p = __real_calloc(a, b); if (p) { __atomic_add_fetch(&W_live, 1, __ATOMIC_RELAXED); __atomic_add_fetch(&W_allocs, 1, __ATOMIC_RELAXED); } return p; }
+void *__wrap_realloc(void *o, size_t n) { if (FAULT()) return NULL; void *p = __real_realloc(o, n); if (!o && p) { __atomic_add_fetch(&W_live, 1, __ATOMIC_RELAXED); __atomic_add_fetch(&W_allocs, 1, __ATOMIC_RELAXED); } return p; }
 void __wrap_free(void *p) { if (p) __atomic_sub_fetch(&W_live, 1, __ATOMIC_RELAXED); __real_free(p); }
-char *__wrap_strdup(const char *s) { char *p = __real_strdup(s); if (p) { __atomic_add_fetch(&W_live, 1, __ATOMIC_RELAXED); __atomic_add_fetch(&W_allocs, 1, __ATOMIC_RELAXED); } return p; }
-char *__wrap_strndup(const char *s, size_t n) { char *p = __real_strndup(s, n); if (p) { __atomic_add_fetch(&W_live, 1, __ATOMIC_RELAXED); __atomic_add_fetch(&W_allocs, 1, __ATOMIC_RELAXED); } return p; }
-int __wrap_vasprintf(char **out, const char *fmt, va_list ap) { int r = __real_vasprintf(out, fmt, ap); if (r >= 0) { __atomic_add_fetch(&W_live, 1, __ATOMIC_RELAXED); __atomic_add_fetch(&W_allocs, 1, __ATOMIC_RELAXED); } return r; }
+char *__wrap_strdup(const char *s) { if (FAULT()) return NULL; char *p = __real_strdup(s); if (p) { __atomic_add_fetch(&W_live, 1, __ATOMIC_RELAXED); __atomic_add_fetch(&W_allocs, 1, __ATOMIC_RELAXED); } return p; }
+char *__wrap_strndup(const char *s, size_t n) { if (FAULT()) return NULL; char *p = __real_strndup(s, n); if (p) { __atomic_add_fetch(&W_live, 1, __ATOMIC_RELAXED); __atomic_add_fetch(&W_allocs, 1, __ATOMIC_RELAXED); } return p; }
+int __wrap_vasprintf(char **out, const char *fmt, va_list ap) { if (FAULT()) { *out = NULL; return -1; } int r = __real_vasprintf(out, fmt, ap); if (r >= 0) { __atomic_add_fetch(&W_live, 1, __ATOMIC_RELAXED); __atomic_add_fetch(&W_allocs, 1, __ATOMIC_RELAXED); } return r; }
 FILE *__wrap_fopen(const char *a, const char *b) { FILE *f = __real_fopen(a, b); if (f) { __atomic_add_fetch(&W_files, 1, __ATOMIC_RELAXED); __atomic_add_fetch(&W_fopens, 1, __ATOMIC_RELAXED); } return f; }
 int __wrap_fclose(FILE *f) { __atomic_sub_fetch(&W_files, 1, __ATOMIC_RELAXED); return __real_fclose(f); }
 char *__wrap_setlocale(int c, const char *l) { if (l) __atomic_add_fetch(&W_setlocale, 1, __ATOMIC_RELAXED); return __real_setlocale(c, l); }
